@@ -59,7 +59,27 @@ def base_file(rng, D, C):
         if kind == "keys":
             out += ["[one]"] + ["k%d%sv" % (k, d) for k in range(n)]
         return "counts", "\n".join(out) + "\n"
-    if r < 0.72:
+    if r < 0.715:
+        # hand-picked edge lines for the parser's pointer walks, in seeded order; the last line may lack its newline
+        d = D[0] if D else "="
+        c = C[0]
+        pool = ["key", "key  ", "key \t", "key %s" % d, "key%s" % d, "key%s " % d, "%s" % d, "%s v" % d, " %s" % d, "  ", "\t", "[", "]", "[]", "[ ]", "[a]x", "[a] ", " [a]", "[a", "a]", "[[a]]",
+                "\"", "k%s\"" % d, "k%s\"\"" % d, "k%s\"a" % d, "k%sa\"" % d, "k%s \" a \" " % d, c, "%s%s" % (c, c), "k%sv %s" % (d, c), "k%sv %s \"" % (d, c), "k%s\"v %s\"" % (d, c),
+                "k%s%sv" % (d, d), "k %s %s v" % (d, d), "  cont", "\tcont %s x" % c, " %s" % c, "k%sv" % d, "k%sv" % d, "key text", "key  text  ", "k%s" % (d * 3), "\x00", "k%s\x00v" % d,
+                "k" * 40 + d, "[" + "s" * 40 + "]"]
+        lines = [rng.pick(pool) for _ in range(rng.randint(0, 10))]
+        if rng.chance(0.5):
+            # what the file ends with matters to the line reader: a short tail line, often after a line that is no entry
+            if rng.chance(0.6):
+                lines.append(rng.pick(["", c + " x", "[a]"]))
+            lines.append(rng.pick(["key  ", "key \t ", "key", "key ", "k%s" % d, "k%s  " % d, "  ", "[a]  ", "k%sv  " % d, "\"", "k%s\"" % d, c, "k%sv %s" % (d, c)]))
+        if rng.chance(0.15):
+            # make the last line end exactly at a buffer-size boundary of the line reader
+            tail = rng.pick(["key  ", "key", "k%sv" % d, "  ", "[a]", c])
+            size = rng.pick([8191, 8192, 8193, 16383, 127, 128])
+            lines.append("p" * max(0, size - len(tail) - sum(len(x) + 1 for x in lines[-0:0])) + tail) if rng.chance(0.5) else lines.append(tail.rjust(size, "q"))
+        return "edge-lines", "\n".join(lines) + ("\n" if rng.chance(0.5) else "")
+    if r < 0.76:
         n = rng.randint(1, 200)
         return "structural", "".join(rng.pick(STRUCT) for _ in range(n))
     if r < 0.84:
